@@ -34,10 +34,10 @@ func runC19(r *an.Run) {
 
 var positionedHelpers = map[string]string{
 	"(*internal/parse/section.programSplitter).errf": "p.file.Position(p.file.Pos(off))",
-	"(*internal/parse.metaParser).onError":            "token.Position handed in by go/scanner or by errf",
-	"(*internal/parse.parser).errf":                   "p.fset.Position(pos)",
-	"(*internal/engine.compiler).errf":                "c.fset.Position(pos) when pos is valid",
-	"(*internal/pgo.augmenter).errf":                  "a.adj.Position(pos)",
+	"(*internal/parse.metaParser).onError":           "token.Position handed in by go/scanner or by errf",
+	"(*internal/parse.parser).errf":                  "p.fset.Position(pos)",
+	"(*internal/engine.compiler).errf":               "c.fset.Position(pos) when pos is valid",
+	"(*internal/pgo.augmenter).errf":                 "a.adj.Position(pos)",
 }
 
 func c19Discipline(r *an.Run) {
@@ -310,47 +310,31 @@ func c19LineMap(r *an.Run) {
 	}
 	// splitPatch
 	if f := fn(r, parseP, "splitPatch"); f != nil {
-		for _, side := range []string{"minus", "plus"} {
-			var lenCall *ssa.Call
-			for _, c := range an.CallsTo(f, "(*bytes.Buffer).Len") {
-				if derivesFromAlloc(c.Common().Args[0], side) {
-					lenCall = c.(*ssa.Call)
-				}
+		minusRoot, plusRoot := splitVersionRoots(f)
+		for si, side := range []string{"minus", "plus"} {
+			root := []*ssa.Alloc{minusRoot, plusRoot}[si]
+			var ls *lengthSample
+			if root != nil {
+				ls = splitLengthSample(f, root)
 			}
-			if !r.Check(lenCall != nil, short(f)+"|"+side+"|samples", f.Pos(), "splitPatch samples the length of the %s buffer", side) {
+			if !r.Check(ls != nil, short(f)+"|"+side+"|samples", f.Pos(), "splitPatch samples the length of the %s buffer", side) {
 				continue
 			}
+			lenSite := ls.site
 			// before every write of the iteration
 			before := true
 			for _, c := range an.CallsTo(f, "(io.Writer).Write") {
-				if an.InstrDominates(c, lenCall) {
+				if an.InstrDominates(c, lenSite) {
 					before = false
 				}
-				if !(lenCall.Block() == c.Block() && an.InstrBlockIndex(lenCall) < an.InstrBlockIndex(c)) && !reachesBlock(lenCall.Block(), c.Block()) {
+				if !(lenSite.Block() == c.Block() && an.InstrBlockIndex(lenSite) < an.InstrBlockIndex(c)) && !reachesBlock(lenSite.Block(), c.Block()) {
 					before = false
 				}
 			}
-			r.Check(before, short(f)+"|"+side+"|offset-before-write", lenCall.Pos(), "the %s offset is sampled before the line is written", side)
+			r.Check(before, short(f)+"|"+side+"|offset-before-write", lenSite.Pos(), "the %s offset is sampled before the line is written", side)
 			// paired with line.StartPos
-			paired := false
-			for _, u := range *lenCall.Referrers() {
-				if st, ok := u.(*ssa.Store); ok {
-					if fa, ok := st.Addr.(*ssa.FieldAddr); ok && fieldNameOf(fa) == "Offset" {
-						if lit, ok := fa.X.(*ssa.Alloc); ok {
-							for _, w := range *lit.Referrers() {
-								if fa2, ok := w.(*ssa.FieldAddr); ok && fieldNameOf(fa2) == "Pos" {
-									for _, x := range *fa2.Referrers() {
-										if st2, ok := x.(*ssa.Store); ok && strings.HasSuffix(an.Path(st2.Val), ".StartPos") {
-											paired = true
-										}
-									}
-								}
-							}
-						}
-					}
-				}
-			}
-			r.Check(paired, short(f)+"|"+side+"|paired-with-line-pos", lenCall.Pos(), "the sampled offset is paired with the (marker-adjusted) start position of that line")
+			paired := ls.pos != nil && strings.HasSuffix(an.Path(ls.pos), ".StartPos")
+			r.Check(paired, short(f)+"|"+side+"|paired-with-line-pos", lenSite.Pos(), "the sampled offset is paired with the (marker-adjusted) start position of that line")
 			n++
 		}
 		// StartPos++ and Text[1:] happen together (same block), in splitPatch or in a helper it calls, and
